@@ -207,31 +207,33 @@ struct Value {
 
     Value &operator=(Value &&val) noexcept {
         if (this != &val) {
-            const ValueType type = val.Type();
+            // val can be a member of this value: take its content out before this value releases what it holds.
+            Value           tmp{Memory::Move(val)};
+            const ValueType type = tmp.Type();
 
-            val.setTypeToUndefined();
+            tmp.setTypeToUndefined();
 
             reset();
             setType(type);
 
             switch (type) {
                 case ValueType::Object: {
-                    object_ = Memory::Move(val.object_);
+                    object_ = Memory::Move(tmp.object_);
                     break;
                 }
 
                 case ValueType::Array: {
-                    array_ = Memory::Move(val.array_);
+                    array_ = Memory::Move(tmp.array_);
                     break;
                 }
 
                 case ValueType::String: {
-                    string_ = Memory::Move(val.string_);
+                    string_ = Memory::Move(tmp.string_);
                     break;
                 }
 
                 default: {
-                    number_ = val.number_;
+                    number_ = tmp.number_;
                 }
             }
         }
@@ -241,8 +243,9 @@ struct Value {
 
     Value &operator=(const Value &val) {
         if (this != &val) {
-            reset();
-            copyValue(val);
+            // val can be a member of this value: copy it before this value releases what it holds.
+            Value tmp{val};
+            *this = Memory::Move(tmp);
         }
 
         return *this;
